@@ -22,7 +22,7 @@ RULE = (
 
 def strategy():
     return gen_prog.program(
-        weights={"PUT": 12, "PUT-invalid": 1, "POST": 0, "DELETE": 5, "DELETE-coll": 2, "MKCOL": 1, "RECREATE": 1, "PROPPATCH": 1, "GET": 5, "PROPFIND": 0, "REPORT": 0, "RESTART": 1},
+        weights={"PUT": 12, "PUT-invalid": 1, "POST": 0, "DELETE": 5, "DELETE-coll": 2, "MKCOL": 1, "RECREATE": 1, "PROPPATCH": 1, "GET": 5, "PROPFIND": 0, "REPORT": 0, "RESTART": 1, "CONDRACE": 3},
         min_steps=10,
         max_steps=25,
         cond_rate=1,
